@@ -304,7 +304,7 @@ const LRS: [f64; 6] = [0.5, 0.125, 1.0, 0.03125, -0.25, 0.0];
 pub fn run(ctx: &Ctx) -> i32 {
     let mut st = ctx.run_replays(&dispatch);
     let t = ctx.tier;
-    let (total, max_iters, max_batch) = t.pick((24000u64, 5usize, 3usize), (200000, 20, 5));
+    let (total, max_iters, max_batch) = t.pick((100000u64, 5usize, 3usize), (400000, 20, 5));
     let strat = move || {
         (
             any::<[u8; 8]>(),
